@@ -268,10 +268,6 @@ const simDictXML = `<?xml version="1.0" encoding="UTF-8"?>
       <request><rule avp="Sim-Octets" required="false" max="1"/></request>
       <answer><rule avp="Sim-Octets" required="false" max="1"/></answer>
     </command>
-    <command code="910" short="YC" name="Sim-One-Gamma">
-      <request><rule avp="Sim-Octets" required="false" max="1"/></request>
-      <answer><rule avp="Sim-Octets" required="false" max="1"/></answer>
-    </command>
   </application>
   <application id="1" type="auth" name="SimGrandParent">
     <command code="922" short="NA" name="Sim-Grand-Alpha">
@@ -303,7 +299,19 @@ const simDictXML = `<?xml version="1.0" encoding="UTF-8"?>
   </application>
 </diameter>`
 
-// simCmd is the harness's own table of the commands in simDictXML.
+// simDictAddendumXML is a second dictionary file that re-declares an application of the
+// first one (same id, type and name) in order to add a command to it.
+const simDictAddendumXML = `<?xml version="1.0" encoding="UTF-8"?>
+<diameter>
+  <application id="1001" type="auth" name="SimAppOne">
+    <command code="910" short="YC" name="Sim-One-Gamma">
+      <request><rule avp="Sim-Octets" required="false" max="1"/></request>
+      <answer><rule avp="Sim-Octets" required="false" max="1"/></answer>
+    </command>
+  </application>
+</diameter>`
+
+// simCmd is the harness's own table of the commands in simDictXML and its addendum.
 type simCmd struct {
 	App   uint32
 	Code  uint32
@@ -348,6 +356,7 @@ const (
 )
 
 var (
+	simDictReloadOK bool // (informational) the second Load of the same file was accepted
 	simDictOnce sync.Once
 	simDictP    *dict.Parser
 )
@@ -360,8 +369,16 @@ func simDict() *dict.Parser {
 		if err == nil {
 			err = p.Load(bytes.NewReader([]byte(simDictXML)))
 		}
+		if err == nil {
+			err = p.Load(bytes.NewReader([]byte(simDictAddendumXML)))
+		}
 		if err != nil {
 			panic("sim dictionary: " + err.Error())
+		}
+		// an application that loads the same file twice gets an error for the second attempt
+		// ("index exists") and goes on with what it had: the dictionary must be none the worse
+		if err := p.Load(bytes.NewReader([]byte(simDictXML))); err == nil {
+			simDictReloadOK = true
 		}
 		simDictP = p
 	})
